@@ -55,7 +55,7 @@ Definition op_gate_via_obj : opfun := fun zs qs =>
   match zs with
   | [f; n] => let n' := Z.to_nat n in
       outv (gate_var_len (fb f) n')
-        (gate_hs_to_var Qc_OF (fb f) n' (gate_proj_eq Qc_OF (freeze 0%Qc n' n' (gate_var_to_hs Qc_OF (fb f) n' (vl qs)))))
+        (gate_hs_to_var Qc_OF (fb f) n' (gate_proj_eq Qc_OF (gate_var_to_hs Qc_OF (fb f) n' (vl qs))))
   | _ => Err (-1) end.
 
 (* ---- MProcess.  zs = [m; n] ; qs = stacked hss (m*n*n) *)
@@ -69,8 +69,20 @@ Definition op_mp_proj_eq_var : opfun := fun zs qs =>
   match zs with
   | [f; n; len] => let n' := Z.to_nat n in let m' := mp_m_of_len (fb f) n' (Z.to_nat len) in
       outv (mp_var_len (fb f) m' n')
-        (mp_proj_eq_var Qc_OF (fb f) m' n' (vfreeze 0%Qc (Z.to_nat len) (vl qs)))
+        (mp_proj_eq_var Qc_OF (fb f) m' n' (vl qs))
   | _ => Err (-1) end.
+
+(* every equality-projection op above is, by definition, the model function of Model/C04_Proj.v applied to the request's data and read out on
+   the first <length> entries: no intermediate representation stands between the executed term and the model (stated for the two ops that used
+   to freeze their intermediate arrays) *)
+Lemma op_gate_via_obj_is_model f n qs : op_gate_via_obj [f; n] qs =
+  outv (gate_var_len (fb f) (Z.to_nat n))
+    (gate_hs_to_var Qc_OF (fb f) (Z.to_nat n) (gate_proj_eq Qc_OF (gate_var_to_hs Qc_OF (fb f) (Z.to_nat n) (vl qs)))).
+Proof. reflexivity. Qed.
+Lemma op_mp_proj_eq_var_is_model f n len qs : op_mp_proj_eq_var [f; n; len] qs =
+  outv (mp_var_len (fb f) (mp_m_of_len (fb f) (Z.to_nat n) (Z.to_nat len)) (Z.to_nat n))
+    (mp_proj_eq_var Qc_OF (fb f) (mp_m_of_len (fb f) (Z.to_nat n) (Z.to_nat len)) (Z.to_nat n) (vl qs)).
+Proof. reflexivity. Qed.
 
 (* ---- heap model of MProcess.calc_proj_eq_constraint_with_var.  zs = [flag; m; n] ; qs = var.
    var lives in buffer 0; reply = contents of buffer 0 AFTER the call ++ contents of the returned array.
